@@ -358,10 +358,24 @@ class Cls:
 class Prog:
     def __init__(self, name, colls, globs, variants, classes, tags=()):
         self.name, self.globs, self.variants, self.classes, self.tags = name, list(globs), list(variants), list(classes), set(tags)
+        self.backends = ('ht', 'ia')
         self.colls = {k: parse_expr(v) for k, v in colls.items()}   # name -> size expression over globals
         self.cls = {c.name: c for c in classes}
         for c in classes:
             c.bind(self.colls)
+
+    def traits(self, backend):
+        """Structural traits that select a recorded finding (known_findings.json) for failures of this program."""
+        t = set()
+        for c in self.classes:
+            for name, kind, pl in c.locals:
+                if name not in c.params:
+                    continue
+                if kind == 'range' and pl[3][0] == 'n' and pl[3][1] < 0:
+                    t.add('negstep')
+                if kind in ('expr', 'lidx') and backend == 'ia':
+                    t.add('ia-nonrange-param')
+        return t
 
     # ------------------------------------------------------------------ JDF
     def jdf(self, body_extra=''):
@@ -471,7 +485,8 @@ class Prog:
                 elif f.mode == 'WRITE':
                     if f.ins:
                         raise Invalid('%s.%s: WRITE flow with input deps not generated' % (I.name, f.name))
-                    I.fin[fi] = ('new', None)
+                    # the generated data_lookup allocates the copy only when an output dep of the flow is active
+                    I.fin[fi] = ('new', None) if any(d.active(I.env) is not None for d in f.outs) else ('null', None)
                 else:
                     if len(acts) != 1:
                         raise Invalid('%s.%s: %d active input deps (need exactly 1)' % (I.name, f.name, len(acts)))
@@ -596,7 +611,9 @@ class Prog:
                         if I.copy[fi] != ('mem',) + s:
                             raise Invalid('%s.%s: write-back to %s of a copy that is not that element (not performed by non-distributed builds)' % (I.name, f.name, s))
                     if kind == 'task' and I.copy[fi] is None and f.mode != 'CTL':
-                        pass   # forwarding NULL
+                        raise Invalid('%s.%s: NULL forwarded to a successor (the runtime aborts: "A NULL is forwarded")' % (I.name, f.name))
+                    if kind == 'mem' and I.copy[fi] is None:
+                        raise Invalid('%s.%s: NULL written back' % (I.name, f.name))
         for cp, al in acc.items():
             for (a, ka), (b, kb) in itertools.combinations(al, 2):
                 if a == b or (ka == 'R' and kb == 'R'):
@@ -712,6 +729,6 @@ def emit_c(prog, refs):
     L.append('  parsec_arena_datatype_set_type(&tp->arenas_datatypes[PARSEC_%s_DEFAULT_ADT_IDX], sizeof(uint64_t), PARSEC_ARENA_ALIGNMENT_SSE, PARSEC_DATATYPE_NULL);' % prog.name)
     L.append('  return &tp->super;')
     L.append('}')
-    L.append('const ptg_program_t ptg_program = { "%s", %d, cls_names, cls_nflows, cls_nparams, %d, %d, variants, make };' % (
+    L.append('const ptg_program_t ptg_program_%s = { "%s", %d, cls_names, cls_nflows, cls_nparams, %d, %d, variants, make };' % (prog.name, 
         prog.name, len(prog.classes), len(colls), len(refs)))
     return '\n'.join(L) + '\n'
